@@ -143,6 +143,23 @@ def run(out: Outcome, drv):
                 pos = rng.choice([ci + 1, ci + 1, len(faulty), ci])
                 faulty.insert(pos, dup)
                 placed.append(("dup_bad_params", f"{sid}:{e[1]}.{e[2]}"))
+        if it % 6 == 5:
+            # a configuration NONE of whose stream ids is in the data (a config written for another deployment): the run
+            # completes on every front end and yields nothing
+            ghost = [{"window": c["window"], "streams": {"ghost_stream": [("absent_stream", "qartod", "gross_range_test", {"fail_span": [0, 1]})],
+                                                          "ghost_2": [("absent_stream", "qartod", "spike_test", {"suspect_threshold": 1, "fail_threshold": 2})]}}
+                     for c in ctxs]
+            for fe in sc.FRONTENDS:
+                case = {"frontend": fe, "table": tab, "contexts_with_faults": ghost, "faults": [["absent_stream", "every configured stream"]]}
+                out.record(case, True, [f"fe:{fe}", "fault:every-stream-absent"])
+                try:
+                    obs, nd, obs_d = collected(fe, tab, ghost, {})
+                    if obs or obs_d:
+                        out.violation(f"{WHAT}: a configuration whose streams are all absent from the data yields results on {fe}: {obs} {obs_d}",
+                                      {"case": jsonable(case), "observed": obs})
+                except Exception as e:  # noqa: BLE001
+                    out.violation(f"{WHAT}: a run whose configured streams are all absent from the data did not complete on {fe}: "
+                                  f"{type(e).__name__}: {e}", {"case": jsonable(case)}, known_id="F-21")
         healthy_keys = []
         for c in ctxs:
             for sid, ts in c["streams"].items():
